@@ -161,6 +161,7 @@ class Outcome:
     def __init__(self):
         self.findings = []     # (key, what, witness)
         self.evaluations = 0
+        self.compared = 0      # values (one per variant and valuation) compared with the reference
         self.status = None     # 'value' | 'rejected' | 'skipped:<why>'
         self.semdeps = ()
         self.rejected_by = set()
@@ -301,6 +302,7 @@ def judge(variants, scheme, label, vals=(0,)):
                 out.add('raises:{}:{}:{}'.format(path, type(v).__name__, sc), 'evaluation raised {!r} although the reference value is {}'.format(v, fmt(R)), _witness(t, scheme, vals[i], label))
                 continue
             v = numpy.asarray(v)
+            out.compared += 1
             if v.shape != R.shape:
                 out.add('shape:{}'.format(path), 'result has shape {} but the definition gives {}'.format(v.shape, R.shape), _witness(t, scheme, vals[i], label))
             elif (v.dtype.kind in 'iu') != (facts.dtype == 'int') and facts.dtype in ('int', 'float'):
